@@ -7,7 +7,7 @@
 #include <string.h>
 
 #define KMAX 2048
-static int mode;                      /* 7 or 19 */
+static int mode;                      /* 7, 19, or 2 (C02's structural oracles on the counting closure) */
 static int klimit;                    /* generator disabled at this many outstanding observations (C07: 300) */
 
 static struct model {
@@ -28,10 +28,16 @@ static int lowest_free(void) { for (int k = 0; k < KMAX; k++) if (!has(k)) retur
 static int oldest(void) { for (int k = 0; k < KMAX; k++) if (has(k)) return k; return -1; }
 static int newest(void) { for (int k = KMAX - 1; k >= 0; k--) if (has(k)) return k; return -1; }
 
+/* observation k: real source R(k), Ethernet source R(k) itself, except
+ *   k % 3 == 0          -> the ONE shared bridge address (many observations with equal Ethernet source, different real source)
+ *   k % 15 == 1, k > 0  -> real source R(k-1) seen through a second bridge B2(k) (equal real source, different Ethernet source) */
 static void obs_addr(int k, uint8_t *real, uint8_t *eth) {
-    uint8_t r[6] = {0x00, 0x50, 0x56, 0x10, (uint8_t)(k >> 8), (uint8_t)k};
-    uint8_t b[6] = {0x00, 0x0c, 0x29, 0x20, (uint8_t)(k >> 8), (uint8_t)k};
-    memcpy(real, r, 6); memcpy(eth, (k % 3 == 0) ? b : r, 6);
+    int r = (k % 15 == 1) ? k - 1 : k;
+    uint8_t rr[6] = {0x00, 0x50, 0x56, 0x10, (uint8_t)(r >> 8), (uint8_t)r};
+    uint8_t shared[6] = {0x00, 0x0c, 0x29, 0x20, 0x00, 0x01};
+    uint8_t b2[6] = {0x00, 0x0c, 0x29, 0x30, (uint8_t)(k >> 8), (uint8_t)k};
+    memcpy(real, rr, 6);
+    memcpy(eth, (k % 15 == 1) ? b2 : (k % 3 == 0) ? shared : rr, 6);
 }
 static int obs_kind(int k) { return (k & 1) ? 0 : 1; }      /* descriptor type: 1 Probe, 0 Train */
 
@@ -50,6 +56,7 @@ static size_t capacity(void) { return (W.iface[0].mtu - 34) / 20; }
 static int find_obs(const uint8_t *d) {           /* descriptor (20 bytes) -> observation index or -1 */
     if (d[2] != 0x00 || d[3] != 0x50 || d[4] != 0x56 || d[5] != 0x10) return -1;
     int k = (d[6] << 8) | d[7];
+    if (d[8] == 0x00 && d[9] == 0x0c && d[10] == 0x29 && d[11] == 0x30) k = (d[12] << 8) | d[13];     /* seen through the second bridge */
     if (k >= KMAX) return -1;
     uint8_t real[6], eth[6]; obs_addr(k, real, eth);
     uint8_t exp[20]; exp[0] = 0; exp[1] = (uint8_t)obs_kind(k); memcpy(exp + 2, real, 6); memcpy(exp + 8, eth, 6);
@@ -120,7 +127,8 @@ static void apply(int ev) {
         case E_QLT_HWID: { pev e = ev_qlt(0, ST_M1, ST_M1, 5, 0x13, 0); drv_linux(&e, 0); break; }
         case E_EMIT: { pev e = ev_emit1(0, ST_M1, ST_M1, 7, 1, 0, ST_S0, ST_PEER); drv_linux(&e, 0); break; }
     }
-    if (is_query) { drv_linux(&q, 0); if (mode == 7) oracle_query(&q); }
+    if (is_query) { drv_linux(&q, 0); if (mode == 7 || mode == 2) { int sup = vf_suppress; if (mode == 2) vf_suppress = 1; oracle_query(&q); vf_suppress = sup; } }
+    if (mode == 2) { oracle_wellformed(0); if (tr_sends() > (is_query || ev == E_DISC || ev == E_QLT_ICON || ev == E_QLT_NAME || ev == E_QLT_HWID ? 1 : ev == E_EMIT ? 2 : 0)) vf_violation("unsolicited:counting-closure", "%s made the responder transmit %d frames", ENAME[ev], tr_sends()); }
     if (mode == 7 && !is_query && tr_sends() > 0 && ev != E_DISC && ev != E_QLT_ICON && ev != E_QLT_NAME && ev != E_QLT_HWID && ev != E_EMIT)
         vf_violation("observation-answered", "%s made the responder transmit", ENAME[ev]);
     if (mode == 19) {
@@ -151,19 +159,78 @@ static int enabled(int ev) {
 static void ev_name(int ev, char *buf, size_t cap) { snprintf(buf, cap, "%s", ENAME[ev]); }
 static void root_setup(void) { memset(&M, 0, sizeof M); }
 
+/* ------------------------------------------------------------------ C19 pump
+ * Directed long histories: every word of length <= L over a macro alphabet (Flood(n) = n fresh observations,
+ * Query, bridged Query, quick Reset, icon request, duplicate, Emit) is repeated R times from several start
+ * states; the ledger monitors of apply() (retained bytes <= 64 KiB + icon, Reset residue, per-handler
+ * retention) run on every frame.  A history in which retention grows with every repetition crosses the
+ * byte bound within a few repetitions. */
+enum { P_FLOOD_BIG, P_FLOOD_SMALL, P_QUERY, P_QUERY_BR, P_RESET1, P_ICON, P_DUP, P_EMIT, P_NMACRO };
+static const char *PNAME[] = {"Flood(1100 new observations)", "Flood(30 new observations)", "Query", "Query(bridged)", "Reset(tos1)", "QueryLargeTlv(icon)", "ProbeDup", "Emit(1)"};
+static int pump_path[64]; static int pump_n;
+static void pump_name(int ev, char *b, size_t cap) { if (ev >= 1000) snprintf(b, cap, "start state %d", ev - 1000); else if (ev >= 100) snprintf(b, cap, "repeat x%d", ev - 100); else snprintf(b, cap, "%s", PNAME[ev]); }
+static void macro(int m) {
+    switch (m) {
+        case P_FLOOD_BIG: for (int i = 0; i < 1100; i++) { vf_trace_clear(); apply(E_OBSNEW); } break;
+        case P_FLOOD_SMALL: for (int i = 0; i < 30; i++) { vf_trace_clear(); apply(E_OBSNEW); } break;
+        case P_QUERY: vf_trace_clear(); apply(E_QUERY); break;
+        case P_QUERY_BR: vf_trace_clear(); apply(E_QUERY_BR); break;
+        case P_RESET1: vf_trace_clear(); apply(E_RESET1); break;
+        case P_ICON: vf_trace_clear(); apply(E_QLT_ICON); break;
+        case P_DUP: vf_trace_clear(); apply(E_DUP_NEW); break;
+        case P_EMIT: vf_trace_clear(); apply(E_EMIT); break;
+    }
+}
+static int pump_stage[8], pump_ns;
+static void pump_apply(int ev) {        /* replay: [1000+start, macros..., 100+reps] */
+    if (ev >= 1000) { if (ev - 1000 >= 1) { vf_trace_clear(); apply(E_DISC); } if (ev - 1000 >= 2) { vf_trace_clear(); apply(E_QLT_ICON); } pump_ns = 0; return; }
+    if (ev < 100) { pump_stage[pump_ns++] = ev; return; }
+    for (int r = 0; r < ev - 100; r++) { for (int i = 0; i < pump_ns; i++) macro(pump_stage[i]); printf("    after repetition %d: %u blocks, %llu bytes retained\n", r + 1, vf_live_blocks(), (unsigned long long)vf_live_bytes()); }
+}
+static e1_cfg pumpcfg;
+static void run_pump(const e1_cfg *base) {
+    (void)base;
+    int L = vf_thorough() ? 3 : 2, Rr = vf_thorough() ? 8 : 5;
+    uint64_t words = 0, frames = 0;
+    for (int start = 0; start < 3; start++) for (int len = 1; len <= L; len++) {
+        int nw = 1; for (int i = 0; i < len; i++) nw *= P_NMACRO;
+        for (int w = 0; w < nw; w++) {
+            int word[3], x = w, has_flood = 0; for (int i = 0; i < len; i++) { word[i] = x % P_NMACRO; x /= P_NMACRO; if (word[i] <= P_FLOOD_SMALL) has_flood = 1; }
+            if (!has_flood) continue;                 /* without new observations nothing can accumulate beyond one icon */
+            vf_world_reset(); root_setup();
+            pump_n = 0; pump_path[pump_n++] = 1000 + start; for (int i = 0; i < len; i++) pump_path[pump_n++] = word[i]; pump_path[pump_n++] = 100 + Rr;
+            e1_manual_path(&pumpcfg, pump_path, pump_n);
+            if (start >= 1) { vf_trace_clear(); apply(E_DISC); } if (start >= 2) { vf_trace_clear(); apply(E_QLT_ICON); }
+            uint64_t v0 = vf_violation_events;
+            for (int r = 0; r < Rr && vf_violation_events == v0; r++) for (int i = 0; i < len; i++) { macro(word[i]); frames += word[i] == P_FLOOD_BIG ? 1100 : word[i] == P_FLOOD_SMALL ? 30 : 1; }
+            words++;
+            uint32_t o[2] = { vf_live_blocks(), (uint32_t)w }; vf_outcome(vf_hash64(o, sizeof o, 6));
+            if (vf_live_bytes() > max_live_bytes) max_live_bytes = vf_live_bytes();
+        }
+        if (vf_violation_events && vf_now_s() - vf_first_violation_t > VF_GRACE_AFTER_VIOLATION_S) break;
+    }
+    R.evaluations = frames; R.transitions = frames; R.states = words; R.exhaustive = 1;
+    vf_extra("pump", "%llu cyclic histories (words of length <= %d over %d macro events containing a flood, x %d repetitions, 3 start states), %llu frames; largest retention %llu bytes", (unsigned long long)words, L, P_NMACRO, Rr, (unsigned long long)frames, (unsigned long long)max_live_bytes);
+    vf_sample("start: after Discover ; [Flood(1100 new observations) ; Query] x %d: retained bytes must stay <= 64 KiB + icon on every frame", Rr);
+}
+
 int main(int argc, char **argv) {
     const char *prop = "C07";
-    for (int i = 1; i + 1 < argc; i++) if (!strcmp(argv[i], "--mode") && !strcmp(argv[i + 1], "c19")) prop = "C19";
+    for (int i = 1; i + 1 < argc; i++) if (!strcmp(argv[i], "--mode")) { if (!strncmp(argv[i + 1], "c19", 3)) prop = "C19"; if (!strcmp(argv[i + 1], "c02o")) prop = "C02"; }
     vf_parse_args(argc, argv, prop);
-    mode = !strcmp(A.mode, "c19") ? 19 : 7;
+    mode = !strncmp(A.mode, "c19", 3) ? 19 : !strcmp(A.mode, "c02o") ? 2 : 7;
+    int pump = !strcmp(A.mode, "c19pump");
     vf_world_init(A.mtu, A.wifi, (uint8_t)A.fill);
-    klimit = mode == 7 ? 300 : KMAX - 8;
+    klimit = mode != 19 ? 300 : KMAX - 8;
     if (A.a > 0) klimit = (int)A.a;
     e1_cfg cfg = { .nev = E_NEV, .ev_name = ev_name, .apply = apply, .enabled = enabled, .root_setup = root_setup, .model = &M, .model_size = sizeof M,
                    .deadline_s = A.deadline, .max_depth = mode == 19 ? 1400 : 0, .prune_on_violation = 1 };
-    if (A.replay) { A.verbose = 1; return e1_replay_file(&cfg, A.replay); }
+    pumpcfg = (e1_cfg){ .nev = 2000, .ev_name = pump_name, .apply = pump_apply, .root_setup = root_setup };
+    if (A.replay) { A.verbose = 1; return e1_replay_file(pump ? &pumpcfg : &cfg, A.replay); }
     double t0 = vf_now_s();
-    e1_stats st; e1_run(&cfg, &st);
+    e1_stats st;
+    if (pump) { run_pump(&cfg); R.wall_s = vf_now_s() - t0; vf_write_results(); return 0; }
+    e1_run(&cfg, &st);
     if (mode == 19) {
         vf_extra("max_retained", "%llu bytes in %llu blocks over all %llu reachable states", (unsigned long long)max_live_bytes, (unsigned long long)max_live_blocks, (unsigned long long)st.states);
         if (!st.fixpoint) {
